@@ -23,6 +23,8 @@ def target(path, kind, tree, hist_dirs):
         return d + "/" + nn
     if kind == "newdir":
         return "fresh dir/" + n
+    if kind == "toroot":
+        return n
     if kind == "move":
         return others[0] + "/" + n
     return others[0] + "/" + nn
@@ -73,7 +75,7 @@ def eval_case(ctx, case):
         renamed = {o: n for o, n in mp.items() if o != n}
         t = apply_renames(cur, mp)
         if case.get("extra") and si == 0:
-            t = ops.edit(t, ["write", "q/unrelated-new.bin", b"an unrelated new file"])
+            t = ops.edit(t, ["write", "q/unrelated-new.bin", b"unrelated!!!"])   # same size as p/a.txt, other content
         desc = f"{case['layout']} step {si + 1} renames {renamed}"
         # (6) without -dr: missing plus new
         if si == 0 and renamed:
@@ -168,7 +170,7 @@ def main(tier, seed):
             continue
         files = sorted(p for p, v in tree.items() if v is not DIR)
         hd = {f: ["p", "q"] for f in files}
-        asg = assignments(tree, hd, files, KINDS + ("newdir",) if name == "flat-other-format" else KINDS)
+        asg = assignments(tree, hd, files, KINDS + ("newdir", "toroot") if name == "flat-other-format" else KINDS)
         for mp in asg:
             cases.append({"layout": name, "base": base, "mapping": mp, "fmts": fmts})
             if name == "flat":
